@@ -302,12 +302,45 @@ pub fn run(args: &Args) -> i32 {
             }
         }
         lasts.extend([0, -1_000_000_000, 4_000_000_000, i64::MAX, i64::MIN + 1, crate::cal::MAX_UNIX_TIME, crate::cal::MIN_UNIX_TIME, crate::cal::MAX_UNIX_TIME - 3 * 366 * 86400]);
-        for &last in &lasts {
-            for last_type in [MType::new(-18000, false, Some("EST")), MType::new(-14400, true, Some("EDT")), MType::new(-14400, true, Some("EST")), MType::new(-18000, true, Some("EST")), MType::new(-14400, false, Some("EDT")), MType::new(-14400, true, None)] {
-                for leaps in [vec![], vec![(78_796_800i64, 1i32)]] {
-                    let types = vec![MType::new(-17762, false, Some("LMT")), last_type];
-                    let r = Raw { trans: vec![(last, 1)], types, leaps, rule: Some(us.clone()) };
-                    check_raw(&cyc, &r, &rec, "rule_space", &mut t3, false);
+        // far outside the years a rule can be evaluated in, but not at the ends of i64
+        for k in [56u32, 57, 60, 62] {
+            lasts.push(1i64 << k);
+            lasts.push(-(1i64 << k));
+        }
+        for d in [-1i64, 0, 1] {
+            lasts.push(crate::cal::MAX_UNIX_TIME + d);
+            lasts.push(crate::cal::MIN_UNIX_TIME + d);
+        }
+        // rules: the US rule; the same days with identical standard and daylight types; with types differing in the name only
+        let est = MType::new(-18000, false, Some("EST"));
+        let same = MRule::alt(&cyc, RuleSpec { std_off: -18000, dst_off: -18000, ..spec }, est, est);
+        let name_only = MRule::alt(&cyc, RuleSpec { std_off: -18000, dst_off: -18000, ..spec }, est, MType::new(-18000, false, Some("ESX")));
+        for rule in [us.clone(), same, name_only] {
+            for &last in &lasts {
+                for last_type in [MType::new(-18000, false, Some("EST")), MType::new(-14400, true, Some("EDT")), MType::new(-14400, true, Some("EST")), MType::new(-18000, true, Some("EST")), MType::new(-14400, false, Some("EDT")), MType::new(-14400, true, None), MType::new(-18000, false, Some("ESX"))] {
+                    for leaps in [vec![], vec![(78_796_800i64, 1i32)]] {
+                        let types = vec![MType::new(-17762, false, Some("LMT")), last_type];
+                        let r = Raw { trans: vec![(last, 1)], types, leaps, rule: Some(rule.clone()) };
+                        check_raw(&cyc, &r, &rec, "rule_space", &mut t3, false);
+                    }
+                }
+            }
+        }
+        // leap record x last transition x rule transition aligned: the record's UTC instant sits at a rule transition + delta,
+        // the last transition's count at the record's count + epsilon (the correction in effect AT a record's own count is the
+        // previous one)
+        for x in [s21, e21] {
+            for delta in -2i64..=2 {
+                for (c0, step) in [(0i32, 1i32), (0, -1), (1, 1), (1, -1), (-1, 1), (-1, -1)] {
+                    let l = x + delta + c0 as i64;
+                    let leaps: Vec<(i64, i32)> = if c0 == 0 { vec![(l, step)] } else { vec![(l - 2 * M, c0), (l, c0 + step)] };
+                    for eps in -2i64..=2 {
+                        for last_type in [MType::new(-18000, false, Some("EST")), MType::new(-14400, true, Some("EDT"))] {
+                            let types = vec![MType::new(-17762, false, Some("LMT")), last_type];
+                            let r = Raw { trans: vec![(0, 0), (l + eps, 1)], types, leaps: leaps.clone(), rule: Some(us.clone()) };
+                            check_raw(&cyc, &r, &rec, "rule_space_leap_aligned", &mut t3, false);
+                        }
+                    }
                 }
             }
         }
